@@ -30,8 +30,8 @@ Section BlockReal.
   Lemma b_is_outer_spec (o : ChildOut T) : b_is_outer o = true -> bfrom_outer (bosize o) = o.
   Proof. discriminate. Qed.
 
-  Theorem blr_memo_acct pre abs_child f (t : @brtree T) i o t' :
-    Forall acct (gcounts _ _ _ t) -> blr_memo pre abs_child f t i = Some (o, t') -> Forall acct (gcounts _ _ _ t').
+  Theorem blr_memo_acct teq pre abs_child f (t : @brtree T) i o t' :
+    Forall acct (gcounts _ _ _ t) -> blr_memo teq pre abs_child f t i = Some (o, t') -> Forall acct (gcounts _ _ _ t').
   Proof.
     intros HA Hm. apply GAll_counts. apply GAll_counts in HA.
     eapply gmemo_acct; [|exact HA|exact Hm]. intros. apply bl_mcalls_le_1.
@@ -44,10 +44,38 @@ Section BlockReal.
   Proof. destruct t. reflexivity. Qed.
 
   (* one compute_layout: the counters of the pass *)
-  Theorem blr_pass_acct pre abs_child f (t : @brtree T) avail t' :
-    blr_compute_root pre abs_child f (greset _ _ _ t) avail = Some t' -> Forall acct (gcounts _ _ _ t').
+  Theorem blr_pass_acct teq pre abs_child f (t : @brtree T) avail t' :
+    blr_compute_root teq pre abs_child f (greset _ _ _ t) avail = Some t' -> Forall acct (gcounts _ _ _ t').
   Proof.
-    unfold blr_compute_root. destruct (blr_memo _ _ _ _ _) as [[o t1]|] eqn:E; [|discriminate].
+    unfold blr_compute_root. destruct (blr_memo _ _ _ _ _ _) as [[o t1]|] eqn:E; [|discriminate].
     intros E'. injection E' as <-. rewrite counts_set_lay. eapply blr_memo_acct; [|exact E]. apply counts_reset_acct.
   Qed.
+
+  (* ---- the ghost key with an exact equality of numbers is an exact equality of inputs *)
+  Section Key.
+    Variable teq : T -> T -> bool.
+    Hypothesis teq_eq : forall a b, teq a b = true -> a = b.
+    Lemma o_eqb_with_eq (a b : option T) : o_eqb_with teq a b = true -> a = b.
+    Proof. destruct a, b; cbn; intros E; try discriminate; try reflexivity. f_equal. apply teq_eq. exact E. Qed.
+    Lemma av_eqb_with_eq (a b : Avail T) : av_eqb_with teq a b = true -> a = b.
+    Proof. destruct a, b; cbn; intros E; try discriminate; try reflexivity. f_equal. apply teq_eq. exact E. Qed.
+    Theorem bin_eqb_with_eq (a b : BIn T) : bin_eqb_with teq a b = true -> a = b.
+    Proof.
+      destruct a as [m s [kw kh] [pw ph] [aw ah] [cs ce]], b as [m' s' [kw' kh'] [pw' ph'] [aw' ah'] [cs' ce']].
+      unfold bin_eqb_with. cbn [bi_mode bi_inherent bi_known bi_parent bi_avail bi_collapsible s_w s_h l_start l_end].
+      intros E. repeat (apply andb_prop in E; destruct E as [E ?]).
+      repeat match goal with
+             | [ X : o_eqb_with teq _ _ = true |- _ ] => apply o_eqb_with_eq in X
+             | [ X : av_eqb_with teq _ _ = true |- _ ] => apply av_eqb_with_eq in X
+             | [ X : Bool.eqb _ _ = true |- _ ] => apply eqb_prop in X
+             end.
+      subst.
+      assert (m = m') by (destruct m, m'; try discriminate; reflexivity).
+      subst. reflexivity.
+    Qed.
+  End Key.
+
+  (* numbers compared as numbers: the key of Model/BlockEngine.v *)
+  Lemma bin_eqb_with_eqb (a b : BIn T) : bin_eqb_with eqb a b = bin_eqb a b.
+  Proof. reflexivity. Qed.
 End BlockReal.
